@@ -807,6 +807,9 @@ _MON = {"name": "run-monitor", "script": "replay/drivers/seq_sched.py", "args": 
 BOUNDED = {p: [_MON] for p in ("C01", "C02", "C03", "C04", "C05")}
 _VAL = {"name": "validation-topologies", "script": "replay/drivers/bnd_validate.py", "args": ["--json"], "timeout": 1200}
 BOUNDED["C19"] = [_VAL]
+_COMP = {"name": "finam-components-pull-at-announced-time", "script": "replay/drivers/bnd_components.py", "args": ["--json"], "timeout": 600}
+BOUNDED["C01"] = [_MON, _COMP]
+BOUNDED["C02"] = [_MON, _COMP]
 BOUNDED["C05"] = [_MON, _VAL]     # the validation outcome must not depend on the order of linking / listing
 REPLAY = {
     f"{S}._check_input_connected": "bnd_validate.py", f"{S}._check_dead_links": "bnd_validate.py", f"{S}._check_branching": "bnd_validate.py",
@@ -1073,7 +1076,7 @@ def register_class_markers(reg):
         }
         have = {k: (m in ci.mro) for k, m in markers.items()}
         for k in sorted(want):
-            reg.facts.append((f"markers<{ci.name}>:{k}", ["C01.0", "C02.0", "C04.0", "C13.0", "C19.0"], have[k] == want[k],
+            reg.facts.append((f"markers<{ci.name}>:{k}", ["C01.0", "C02.0", "C03.0", "C04.0", "C05.0", "C09.0", "C10.0", "C11.0", "C12.0", "C13.0", "C19.0", "C20.0"], have[k] == want[k],
                               f"class {ci.name} ({ci.module.path}): {k} {'must' if want[k] else 'must not'} be a base class "
                               f"({'is' if have[k] else 'is not'} one)"))
 
